@@ -358,7 +358,8 @@ impl<'a> LogDbgPass<'a> {
 impl<'a> VisitMut for LogDbgPass<'a> {
     fn visit_block_mut(&mut self, b: &mut syn::Block) {
         let mut out = Vec::new();
-        for s in b.stmts.drain(..) {
+        let n_stmts = b.stmts.len();
+        for (k_stmt, s) in b.stmts.drain(..).enumerate() {
             match &s {
                 Stmt::Macro(m) if is_log_macro(&m.mac) => {
                     self.check_log_args(&m.mac);
@@ -371,7 +372,10 @@ impl<'a> VisitMut for LogDbgPass<'a> {
                     continue;
                 }
                 Stmt::Macro(m) => {
-                    if let Some(n) = self.dbg_stmt(&m.mac, m.semi_token.is_some()) {
+                    // a diverging `panic!(..);` that ends its block gives the block type `!`; keep the block's
+                    // type by emitting the tail expression `shim_unreached()` (requires false, any result type)
+                    let last_diverging = k_stmt + 1 == n_stmts;
+                    if let Some(n) = self.dbg_stmt(&m.mac, m.semi_token.is_some() && !last_diverging) {
                         out.push(n);
                         continue;
                     }
@@ -1363,6 +1367,7 @@ fn rustfmt(src: &str) -> Option<String> {
 
 #[derive(Default, Clone)]
 struct ExtractSpec {
+    no_loop_isolation: bool,
     file: String,
     impl_key: Option<String>,
     name: String,
@@ -1923,6 +1928,9 @@ impl Unit {
         let vis = &vis;
         let fn_ts = if spec.spec_only {
             quote! { #[verifier::external_body] #vis #sig #block }
+        } else if spec.no_loop_isolation {
+            // proof strategy only (no effect on the executable text): facts established before a loop stay available in it
+            quote! { #[verifier::loop_isolation(false)] #vis #sig #block }
         } else {
             quote! { #vis #sig #block }
         };
@@ -2541,6 +2549,8 @@ impl Unit {
                             } else if let Some(n) = o.strip_prefix("assoc=") {
                                 let (a, t) = n.split_once(':').unwrap_or_else(|| die("bad assoc="));
                                 spec.assoc.push((a.to_string(), t.replace('~', " ")));
+                            } else if o == "no_loop_isolation" {
+                                spec.no_loop_isolation = true
                             } else if o == "optmap" {
                                 spec.optmap = true
                             } else if let Some(n) = o.strip_prefix("until=") {
